@@ -9,7 +9,10 @@ import json, os, re, shutil, subprocess, sys
 OUT = "/tmp/wt/out"
 CONF = "/tmp/wt/confirm"
 DEST = "/verif/seeded"
-EXTRA = {"C05_B": ["C17"], "C15_B": ["C15", "C16"], "C16_B": ["C16", "C15"], "C15_A": ["C15", "C16"]}
+EXTRA = {"C05_B": ["C17"], "C15_B": ["C15", "C16"], "C16_B": ["C16", "C15"], "C15_A": ["C15", "C16"],
+         "C01_C": ["C15", "C01"], "C02_C": ["C15", "C02"], "C03_C": ["C01", "C03"], "C03_D": ["C03:thorough"], "C04_C": ["C15", "C04"],
+         "C04_D": ["C15", "C04"], "C05_C": ["C06", "C15"], "C05_D": ["C03", "C05"], "C07_C": ["C17", "C07"], "C08_C": ["C15", "C08"],
+         "C08_D": ["C13", "C08"], "C09_C": ["C09", "C15"]}
 
 
 def sh(cmd):
@@ -35,7 +38,10 @@ def main():
         assert sh("git -C /repo apply %s" % os.path.join(d, "patch.diff")).returncode == 0, mid
         try:
             for c in checks:
-                r = sh("cd /verif && ./check %s --tier quick" % c)
+                tier = "quick"
+                if ":" in c:
+                    c, tier = c.split(":")
+                r = sh("cd /verif && ./check %s --tier %s" % (c, tier))
                 viol = [l for l in r.stdout.splitlines() if l.startswith("VIOLATION")]
                 keys = []
                 ev = os.path.join("/verif/evidence", c + ".json")
@@ -43,13 +49,15 @@ def main():
                     keys = json.load(open(ev))["coverage"]["new_violation_keys"][:8]
                 except Exception:
                     pass
-                results.append({"check": c, "tier": "quick", "exit_code": r.returncode, "detected": r.returncode == 1 and bool(viol),
+                results.append({"check": c, "tier": tier, "exit_code": r.returncode, "detected": r.returncode == 1 and bool(viol),
                                 "violation_keys": keys, "first_violation": (viol[0].split("#", 1)[1].strip()[:300] if viol else None)})
         finally:
             sh("git -C /repo checkout -- .")
         meta = {
             "id": mid, "property": prop,
-            "origin": "written by an independent sub-agent that saw only the property text and a scratch worktree of /repo (nothing from /verif)",
+            "origin": "written by an independent sub-agent that saw only the property text and a scratch worktree of /repo (nothing from /verif)"
+                      + ("; second round: the agent was also shown one-paragraph summaries of the first-round changes A/B for this property "
+                         "and asked for harder ones (histories, long inputs, cooperating edits)" if mid[-1] in "CD" else ""),
             "description_and_what_it_needs_to_manifest": desc.strip(),
             "confirmed_in_scratch_worktree": {
                 "procedure": "in /tmp/wt/%s: demo on clean tree, git apply patch, 42 stable tests (guard off), demo again, revert" % prop,
